@@ -27,7 +27,7 @@ KINDS = ['mv', 'number', 'npscalar', 'list', 'tuple', 'callable', 'nested-callab
 
 
 def floors(tier):
-    f = {'distinct_nontrivial': 1500 if tier == 'quick' else 25000, 'index_cases': 500, 'setitem_cases': 250,
+    f = {'distinct_nontrivial': 1500 if tier == 'quick' else 250000, 'index_cases': 500, 'setitem_cases': 250,
          'setitem_postconditions_evaluated': 250, 'operand_kind_cases': 600, 'noncommuting_sequence_or_callable_left': 150,
          'reflected_dispatch_cases': 200, 'container_ndarray': 150, 'container_list': 150, 'container_tuple': 50}
     for sym in INFIX:
@@ -41,7 +41,7 @@ def plan(tier, seed):
             {'named': '2DPGA'}, {'p': 1, 'q': 1, 'r': 1}, {'p': 3, 'q': 0, 'r': 0, 'opts': {'wrapper': 'identity'}}]
     if tier == 'thorough':
         cfgs += gen.sig_orderings(2, 3)[::2] + [gen.random_custom_cfg(rng, 3) for _ in range(6)]
-    n = (50, 30, 80) if tier == 'quick' else (60, 40, 100)
+    n = (50, 30, 80) if tier == 'quick' else (800, 500, 1500)
     U = []
     reps = 2 if tier == 'quick' else 4
     for c in cfgs:
